@@ -25,7 +25,10 @@ def families(quick: bool):
     f = [("ideal", "pvt_gas", 100.0, 8000.0), ("ideal", "pvt_gas", 7200.0, 8000.0),
          ("single", "synth_alpha:constant", 1000.0, 8000.0), ("single", "synth_alpha:constant", 7600.0, 8000.0),
          ("single", "pvt_gas", 1000.0, 8000.0), ("single", "synth_alpha:rising", 3000.0, 9000.0),
-         ("single", "synth_alpha:constant", 9999.0, 10000.0)]   # p_f/p_i = 0.9999: a tiny drawdown must converge just as well
+         ("single", "synth_alpha:constant", 9999.0, 10000.0),   # p_f/p_i = 0.9999: a tiny drawdown must converge just as well
+         # a coarse user-diffusivity table with p_i and p_f between the same two rows, p_f/p_i = 0.97: the scaled transform at p_i
+         # is not 1 there (the scaling interpolates 1/m), and the uniform initial state is the transform of p_i, not 1
+         ("single", "synth_alpha:constant:11", 7275.0, 7500.0)]
     if not quick:
         f += [("ideal", "pvt_gas", 4000.0, 8000.0), ("single", "pvt_gas", 4000.0, 8000.0), ("single", "pvt_gas", 7900.0, 8000.0),
               ("single", "synth_alpha:falling", 500.0, 9000.0), ("single", "synth_alpha:kinked", 2000.0, 10000.0),
@@ -43,7 +46,7 @@ def _family(args):
 
     out = []
     try:
-        const_alpha = kind == "ideal" or tab == "synth_alpha:constant"
+        const_alpha = kind == "ideal" or tab.startswith("synth_alpha:constant")
         # the reference quantities (m_f, m_i, the diffusivity handed to the independent solver) come from a fluid built first, from
         # a private copy of the table
         src = sdrv.table(tab)
@@ -67,7 +70,8 @@ def _family(args):
         if kind == "ideal":
             m_f, m_i, scale_rf = 0.0, 1.0, 1 - pf / pi
         else:
-            m_f, m_i, scale_rf = float(fp.m_scaled_func(pf)), float(fp.m_i), 1.0
+            # the documented initial state is the scaled transform of p_i (not whatever the wrapper stores as m_i)
+            m_f, m_i, scale_rf = float(fp.m_scaled_func(pf)), float(fp.m_scaled_func(pi)), 1.0
         mol = None
         for nx, nt in rr:
             t = np.linspace(0, math.sqrt(T_END), nt) ** 2
